@@ -229,25 +229,30 @@ TypeOK ==
 (* the file `local` is always absent or exactly some complete past snapshot *)
 DiskIsASnapshot == ~local.ex \/ local.lines \in Snapshots
 
-(* ... which is the one `lastPersisted` names, and a restart from it answers *)
-(* every query as that snapshot did                                         *)
+(* ... which is the one `lastPersisted` names (bookkeeping, not a C18 predicate) *)
+SnapshotOnDisk ==
+  local.ex /\ localVer > 0 => local.lines = hist[localVer] /\ localVer = lastPersisted
+
+(* an interruption at any point leaves a complete snapshot in `local`, and a *)
+(* restart from it answers every query as that snapshot did                 *)
 CrashLeavesSnapshot ==
-  /\ local.ex /\ localVer > 0 => local.lines = hist[localVer] /\ localVer = lastPersisted
+  /\ DiskIsASnapshot
   /\ local.ex => ReloadFaithful(local.lines)
 
-(* once every call has returned: file lines = memory entries (as sets), and *)
-(* the reloaded matcher is extensionally memory's                           *)
+(* once every call has returned: file lines = memory entries (as sets) ...  *)
+ConvergedFile ==
+  (AllDone /\ Alive) => LocalSet = mem /\ (version > 0 => local.ex)
+(* ... and the reloaded matcher is extensionally memory's                   *)
 Converged ==
-  (AllDone /\ Alive) =>
-     /\ LocalSet = mem
-     /\ (version > 0 => local.ex)
-     /\ ReloadFaithful(mem)
+  /\ ConvergedFile
+  /\ (AllDone /\ Alive) => ReloadFaithful(mem)
 
-(* the highest-version snapshot wins: the file never goes back, and at the  *)
-(* end it is the last snapshot taken                                        *)
+(* the highest-version snapshot wins: at the end the file is the last       *)
+(* snapshot taken (and the file never goes back: NeverBackwards)            *)
 NewestWins ==
   /\ localVer <= version
-  /\ (AllDone /\ Alive /\ version > 0) => lastPersisted = version /\ local.lines = hist[version]
+  /\ (AllDone /\ Alive /\ version > 0) => local.ex /\ local.lines = hist[version]
+LastPersistedExact == (AllDone /\ Alive) => lastPersisted = version
 NeverBackwards == [][localVer' >= localVer /\ lastPersisted' >= lastPersisted]_vars
 
 (* saveMu discipline: the temp file exists exactly while a writer is between *)
